@@ -45,7 +45,7 @@ def run(ctx):
         ctx.model_check("Concurrency", "MC_Conc_voprf_thorough.cfg", workers=16)
     beh, seen = [], set()
     for k in KINDS:
-        ov = {"Procs": '{"g1", "g2", "g3"}'} if ctx.thorough and k in ("t1issuer", "t5issuer", "batch") else None
+        ov = {"Procs": '{"g1", "g2", "g3"}'} if (ctx.thorough and k in ("t1issuer", "t5issuer")) or k == "batch" else None
         for b in ctx.generate("Gen_Conc", cfg="Gen_Conc_%s.cfg" % k, workers=1, overrides=ov):
             prog = [b[g] for g in sorted(b)]
             sig = (k, tuple(sorted(tuple(p) for p in prog)))     # goroutines are interchangeable
@@ -58,7 +58,7 @@ def run(ctx):
     ctx.harness_bin = racebin
     racelog = os.path.join(ctx.scratch, "race")
     env = {"VERIF_CONC_BEHAVIOURS": bpath, "VERIF_RACE_LOG": racelog,
-           "GORACE": "log_path=%s halt_on_error=0 exitcode=0 history_size=2" % racelog}
+           "GORACE": "log_path=%s halt_on_error=0 exitcode=0 history_size=4" % racelog}
     n, files, cases = ctx.record_and_validate("concurrency", "Trace_Concurrency", describe=describe, key=key, env=env, parts=min(vlib.NCPU, 16))
     kinds = {}
     for c in cases:
@@ -87,6 +87,6 @@ def replay(ctx, path):
     ctx.harness_bin = racebin
     racelog = os.path.join(ctx.scratch, "race")
     os.environ["VERIF_RACE_LOG"] = racelog
-    os.environ["GORACE"] = "log_path=%s halt_on_error=0 exitcode=0 history_size=2" % racelog
+    os.environ["GORACE"] = "log_path=%s halt_on_error=0 exitcode=0 history_size=4" % racelog
     os.environ["VERIF_CONC_BEHAVIOURS"] = ""
     return ctx.replay_case(path, "concurrency", "Trace_Concurrency")
